@@ -113,39 +113,46 @@ def checkMessage (c : Cli) (buf : List Nat) : Cli × Bool :=
     if !ok then (c, false) else (t3 c, true)
   else (t3 c, true)
 
+/-- `handleTimeouts`, T3 part: TESTFR act when nothing was received for t3; false = close (three unconfirmed) -/
+def phaseT3 (c : Cli) : Cli × Bool :=
+  if c.now > c.nextT3 then
+    if c.outstandingTestFR > 2 then (c, false)
+    else
+      let c := write c TESTFR_ACT
+      ({ c with uTimeout := c.now + c.p.t1 * 1000, outstandingTestFR := c.outstandingTestFR + 1,
+                nextT3 := c.now + c.p.t3 * 1000 }, true)
+  else (c, true)
+
+/-- T2 part: acknowledge when the first unacknowledged I-frame is t2 old -/
+def phaseT2 (c : Cli) : Cli :=
+  if c.unconf > 0 then
+    match c.lastConf with
+    | some l => if c.now > l && c.now - l ≥ c.p.t2 * 1000 then confirmOutstanding c else c
+    | none => c
+  else c
+
+/-- T1 part: a U-format act or the oldest I-frame unconfirmed for t1; false = close -/
+def phaseT1 (c : Cli) : Cli × Bool :=
+  if c.uTimeout != 0 && c.now > c.uTimeout then (c, false)
+  else
+    match c.win with
+    | [] => (c, true)
+    | e :: _ => if c.now > e.sentTime && c.now - e.sentTime ≥ c.p.t1 * 1000 then (c, false) else (c, true)
+
 /-- `handleTimeouts`: false = close -/
 def handleTimeouts (c : Cli) : Cli × Bool :=
-  let now := c.now
-  -- T3
-  let r1 : Cli × Bool :=
-    if now > c.nextT3 then
-      if c.outstandingTestFR > 2 then (c, false)
-      else
-        let c := write c TESTFR_ACT
-        ({ c with uTimeout := now + c.p.t1 * 1000, outstandingTestFR := c.outstandingTestFR + 1,
-                  nextT3 := now + c.p.t3 * 1000 }, true)
-    else (c, true)
-  if !r1.2 then r1
-  else
-    let c := r1.1
-    -- T2
-    let c :=
-      if c.unconf > 0 then
-        match c.lastConf with
-        | some l => if now > l && now - l ≥ c.p.t2 * 1000 then confirmOutstanding c else c
-        | none => c
-      else c
-    if c.uTimeout != 0 && now > c.uTimeout then (c, false)
-    else
-      match c.win with
-      | [] => (c, true)
-      | e :: _ => if now > e.sentTime && now - e.sentTime ≥ c.p.t1 * 1000 then (c, false) else (c, true)
+  let r1 := phaseT3 c
+  if !r1.2 then r1 else phaseT1 (phaseT2 r1.1)
 
 /-- what the thread does after the loop: confirm, destroy the socket, report -/
 def finish (c : Cli) (event : String) : Cli :=
   let c := if c.unconf > 0 then confirmOutstanding c else c
   let c := { c with conState := 0, running := false, phase := 4 }
   emit c (.ev event)
+
+/-- the `w` test after every received message (also acknowledges before STOPDT con is awaited) -/
+def ackIfW (c : Cli) : Cli :=
+  if c.unconf ≥ c.p.w || c.conState == 4 then confirmOutstanding c else c
 
 /-- one loop iteration: from the return of `Handleset_waitReady` to the next call -/
 def loopIter (c : Cli) : Cli :=
@@ -165,8 +172,7 @@ def loopIter (c : Cli) : Cli :=
             else c
           (c, lr)
         else (c, lr)
-      let c := if c.unconf ≥ c.p.w || c.conState == 4 then confirmOutstanding c else c
-      (c, lr)
+      (ackIfW c, lr)
     else (c, true)
   let (c, ok) := handleTimeouts c
   let loopRunning := loopRunning && ok
